@@ -27,6 +27,7 @@ import (
 	"sort"
 	"strings"
 	"sync"
+	"sync/atomic"
 	"syscall"
 	"testing"
 	"time"
@@ -467,8 +468,32 @@ type childSpec struct {
 	Target  string      `json:"target"`
 	Writes  []writeSpec `json:"writes"`
 	CrashAt int         `json:"crash_at"` // 0: never
-	Observe bool        `json:"observe"`
-	Report  string      `json:"report"`
+	Observe bool        `json:"observe"`  // look at the target at every hook hit, and run the polling reader
+	// PriorDone: some Write of the history returned nil before this process
+	// started (the target must never be absent again).
+	PriorDone bool   `json:"prior_done"`
+	Report    string `json:"report"`
+}
+
+// readerSnap is one stable view of the polling reader: the target pointed to
+// Link before and after its directory was listed and read.
+type readerSnap struct {
+	Link    string            `json:"link"`
+	Files   map[string]string `json:"files"`
+	Err     string            `json:"err,omitempty"` // error class while reading the directory
+	Started int               `json:"started"`       // Writes of this process begun when the view was complete
+	Done    int               `json:"done"`          // Writes of the history known to have returned nil before the view began
+}
+
+// readerRep is what the polling reader (a goroutine of the crash-free child
+// that resolves the target in a tight loop while the Writes run) saw.
+type readerRep struct {
+	Iterations      int          `json:"iterations"`
+	Snaps           []readerSnap `json:"snaps"`
+	Unstable        int          `json:"unstable"` // views discarded because the link changed underneath
+	AbsentAfterDone int          `json:"absent_after_done"`
+	NotSymlink      int          `json:"not_symlink"`
+	OtherErr        string       `json:"other_err,omitempty"`
 }
 
 type hitRec struct {
@@ -486,10 +511,11 @@ type retRec struct {
 }
 
 type childReport struct {
-	Hits    []hitRec `json:"hits"`
-	Returns []retRec `json:"returns"`
-	Crash   *hitRec  `json:"crash,omitempty"`
-	Done    bool     `json:"done"`
+	Hits    []hitRec   `json:"hits"`
+	Returns []retRec   `json:"returns"`
+	Crash   *hitRec    `json:"crash,omitempty"`
+	Reader  *readerRep `json:"reader,omitempty"`
+	Done    bool       `json:"done"`
 }
 
 func errnoName(e syscall.Errno) string {
@@ -597,9 +623,23 @@ func childMain(specPath string) {
 		rep.Hits = append(rep.Hits, h)
 	}
 	dir.VerifHook.Store(&hook)
+	var started, done atomic.Int64
+	if spec.PriorDone {
+		done.Store(1)
+	}
+	var stop atomic.Bool
+	readerDone := make(chan *readerRep, 1)
+	if spec.Observe {
+		go pollingReader(spec.Target, &started, &done, &stop, readerDone)
+	}
 	for i, w := range spec.Writes {
 		cur = i
-		err := d.Write(w.files())
+		fl := w.files()
+		started.Add(1)
+		err := d.Write(fl)
+		if err == nil {
+			done.Add(1)
+		}
 		r := retRec{Write: i}
 		if err != nil {
 			r.Err, r.ErrText = errClass(err), err.Error()
@@ -614,6 +654,10 @@ func childMain(specPath string) {
 		}
 	}
 	dir.VerifHook.Store(nil)
+	if spec.Observe {
+		stop.Store(true)
+		rep.Reader = <-readerDone
+	}
 	rep.Done = true
 	rb, _ := json.Marshal(rep)
 	if err := os.WriteFile(spec.Report, rb, 0o644); err != nil {
@@ -622,14 +666,78 @@ func childMain(specPath string) {
 	}
 }
 
+// pollingReader is a truly concurrent reader: it resolves the target in a
+// tight loop while the Writes run, so it also sees states between two
+// filesystem calls that have no hook between them. Sound judgements only:
+//   - ENOENT on the target although a Write of the history had returned nil
+//     before the readlink began: the target never disappears again;
+//   - a view of a version directory counts only if the target pointed to that
+//     directory before AND after it was listed and read (version directory
+//     names are unique, so it was the current version during the whole read;
+//     Write removes a version only after the target was renamed away from it).
+func pollingReader(target string, started, done *atomic.Int64, stop *atomic.Bool, out chan<- *readerRep) {
+	r := &readerRep{Snaps: []readerSnap{}}
+	last := ""
+	for !stop.Load() {
+		d0 := int(done.Load())
+		l1, err := os.Readlink(target)
+		r.Iterations++
+		if err != nil {
+			switch {
+			case errors.Is(err, fs.ErrNotExist):
+				if d0 >= 1 {
+					r.AbsentAfterDone++
+				}
+			case errors.Is(err, syscall.EINVAL):
+				r.NotSymlink++
+			default:
+				r.OtherErr = err.Error()
+			}
+			continue
+		}
+		if l1 == last {
+			continue
+		}
+		sn := readerSnap{Link: l1, Files: map[string]string{}, Done: d0}
+		list, err := os.ReadDir(l1)
+		if err != nil {
+			sn.Err = errClass(err)
+		}
+		for _, e := range list {
+			if !e.Type().IsRegular() {
+				sn.Files[e.Name()] = "<" + e.Type().String() + ">"
+				continue
+			}
+			b, err := os.ReadFile(filepath.Join(l1, e.Name()))
+			if err != nil {
+				sn.Err = errClass(err)
+				continue
+			}
+			sn.Files[e.Name()] = digestOf(b)
+		}
+		l2, err := os.Readlink(target)
+		if err != nil || l2 != l1 {
+			if errors.Is(err, fs.ErrNotExist) && d0 >= 1 {
+				r.AbsentAfterDone++
+			}
+			r.Unstable++
+			continue
+		}
+		sn.Started = int(started.Load())
+		r.Snaps = append(r.Snaps, sn)
+		last = l1
+	}
+	out <- r
+}
+
 var childEnv []string
 
-// runChild re-executes the test binary as a child for spec. wd is a private
-// work directory (spec and report files live there, outside the base
-// directory of the target).
+// runChild re-executes the test binary as a child for spec. wd is the private
+// base directory of the target (possibly not existing yet); the spec and
+// report files live next to it, not in it.
 func runChild(wd string, spec childSpec) (rep childReport, code int, stderr string, err error) {
-	spec.Report = filepath.Join(wd, "report.json")
-	sp := filepath.Join(wd, "spec.json")
+	spec.Report = wd + ".report.json"
+	sp := wd + ".spec.json"
 	os.Remove(spec.Report)
 	sb, _ := json.Marshal(spec)
 	if err = os.WriteFile(sp, sb, 0o644); err != nil {
@@ -721,17 +829,68 @@ func snapshot(base string) (snap, error) {
 	return s, err
 }
 
+// restore puts the base directory back into the snapshotted state. It is
+// differential (removes what the snapshot does not have, re-creates what is
+// missing or different): removing directories is by far the most expensive
+// filesystem operation here.
 func restore(base string, s snap) error {
-	if err := os.RemoveAll(base); err != nil {
-		return err
-	}
 	if !s.exists {
-		return nil
+		return os.RemoveAll(base)
+	}
+	want := make(map[string]*node, len(s.nodes))
+	for i := range s.nodes {
+		want[s.nodes[i].rel] = &s.nodes[i]
+	}
+	have := map[string]bool{}
+	var extra []string
+	if _, err := os.Lstat(base); err == nil {
+		err := filepath.WalkDir(base, func(p string, d fs.DirEntry, err error) error {
+			if err != nil {
+				return err
+			}
+			if p == base {
+				return nil
+			}
+			rel, _ := filepath.Rel(base, p)
+			same := false
+			if n := want[rel]; n != nil {
+				switch {
+				case d.Type()&fs.ModeSymlink != 0:
+					l, _ := os.Readlink(p)
+					same = n.kind == 'l' && l == n.link
+				case d.IsDir():
+					same = n.kind == 'd'
+				case d.Type().IsRegular() && n.kind == 'f':
+					b, err := os.ReadFile(p)
+					same = err == nil && bytes.Equal(b, n.data)
+				}
+			}
+			if same {
+				have[rel] = true
+				return nil
+			}
+			extra = append(extra, p)
+			if d.IsDir() {
+				return filepath.SkipDir
+			}
+			return nil
+		})
+		if err != nil {
+			return err
+		}
+	}
+	for _, p := range extra {
+		if err := os.RemoveAll(p); err != nil {
+			return err
+		}
 	}
 	if err := os.MkdirAll(base, 0o755); err != nil {
 		return err
 	}
 	for _, n := range s.nodes {
+		if have[n.rel] {
+			continue
+		}
 		p := filepath.Join(base, n.rel)
 		var err error
 		switch n.kind {
@@ -821,12 +980,70 @@ func (c *caseRun) judgeHit(h hist, phase string, i int, point string, o Obs, ext
 	return ok
 }
 
+// judgeReader judges what the polling reader of a crash-free child saw.
+func (c *caseRun) judgeReader(h hist, phase string, r *readerRep, extra map[string]any) {
+	if r == nil {
+		return
+	}
+	rec.Count(phase+".polls", r.Iterations)
+	rec.Count(phase+".stable-views", len(r.Snaps))
+	rec.Count(phase+".unstable-views-discarded", r.Unstable)
+	if r.OtherErr != "" {
+		rec.Count(phase+".unexpected-readlink-error", 1)
+		rec.Observe(phase + ": readlink on the target failed with an unexpected error (not judged): " + r.OtherErr)
+	}
+	if r.NotSymlink > 0 {
+		rec.Count(phase+".target-not-a-symlink", r.NotSymlink)
+	}
+	ex := func(m map[string]any) map[string]any {
+		for k, v := range extra {
+			m[k] = v
+		}
+		return m
+	}
+	if r.AbsentAfterDone > 0 {
+		rec.Violation(c.idx, phase+"/absent-after-successful-write",
+			fmt.Sprintf("a reader polling the target while the Writes ran got ENOENT %d times (of %d polls) although a Write had already returned nil; sequence %s", r.AbsentAfterDone, r.Iterations, c.shape),
+			c.replay(ex(map[string]any{"phase": phase, "reader": r})))
+	}
+	for _, sn := range r.Snaps {
+		n := sn.Started
+		if n > len(h.writes) {
+			n = len(h.writes)
+		}
+		if n < 1 {
+			n = 1
+		}
+		allowed := h.allowed(n - 1)
+		o := Obs{Kind: "symlink", Link: sn.Link, Resolved: "dir", Files: sn.Files}
+		class := ""
+		switch {
+		case strings.HasPrefix(sn.Err, "ENOENT") && len(sn.Files) == 0:
+			class = "dangling-link"
+		case strings.HasPrefix(sn.Err, "ENOENT"):
+			class = "partial-set"
+		case sn.Err != "":
+			rec.Inconclusive(c.idx, "polling reader could not read a version directory: "+sn.Err, sn)
+			continue
+		default:
+			class, _ = classify(o, allowed)
+		}
+		if class == "set" {
+			rec.Count(phase+".stable-views-complete", 1)
+			continue
+		}
+		rec.Violation(c.idx, phase+"/"+class,
+			fmt.Sprintf("a reader polling the target while the Writes ran found the target pointing to %s before and after reading it, and that directory held %s (files=%v), not one complete file set; sequence %s", sn.Link, class, sn.Files, c.shape),
+			c.replay(ex(map[string]any{"phase": phase, "view": sn, "allowed_sets": allowed})))
+	}
+}
+
 // shows reports whether the observation is exactly set w; otherwise the class of what it is.
 func shows(o Obs, w writeSpec, others []writeSpec) (bool, string) {
 	if o.Resolved == "dir" && equalSet(o.Files, w.digests()) {
 		return true, "set"
 	}
-	class, _ := classify(o, others)
+	class, _ := classify(o, append(append([]writeSpec{}, others...), w))
 	if class == "set" {
 		class = "shows-an-older-set"
 	}
@@ -873,13 +1090,9 @@ func safeWrite(d *dir.Dir, w writeSpec) (err error, panicked any) {
 func (c *caseRun) run() {
 	seq := hist{writes: c.p.Writes}
 	wd := filepath.Join(c.root, fmt.Sprintf("c%d-n0", c.idx))
-	if err := os.MkdirAll(wd, 0o755); err != nil {
-		rec.Inconclusive(c.idx, "harness: cannot create work directory", err.Error())
-		return
-	}
-	target := filepath.Join(wd, "b", "svid")
+	target := filepath.Join(wd, "svid")
 	rep, code, stderr, err := runChild(wd, childSpec{Target: target, Writes: c.p.Writes, Observe: true})
-	os.RemoveAll(wd)
+	cleanup(wd)
 	if err != nil || code != 0 || !rep.Done {
 		rec.Inconclusive(c.idx, "crash-free child did not finish", map[string]any{"exit": code, "err": fmt.Sprint(err), "stderr": stderr})
 		return
@@ -892,6 +1105,7 @@ func (c *caseRun) run() {
 			clean = false
 		}
 	}
+	c.judgeReader(seq, "reader", rep.Reader, nil)
 	for _, r := range rep.Returns {
 		if r.Err != "" {
 			clean = false
@@ -945,6 +1159,12 @@ func (c *caseRun) run() {
 	wg.Wait()
 }
 
+func cleanup(wd string) {
+	os.RemoveAll(wd)
+	os.Remove(wd + ".spec.json")
+	os.Remove(wd + ".report.json")
+}
+
 func anyWriteFailed(rep childReport) bool {
 	for _, r := range rep.Returns {
 		if r.Err != "" {
@@ -960,12 +1180,8 @@ func crashedAt(rep childReport, code int, err error, write int, point string) bo
 
 func (c *caseRun) crashPoint(n int, hit hitRec) {
 	wd := filepath.Join(c.root, fmt.Sprintf("c%d-n%d", c.idx, n))
-	if err := os.MkdirAll(wd, 0o755); err != nil {
-		rec.Inconclusive(c.idx, "harness: cannot create work directory", err.Error())
-		return
-	}
-	defer os.RemoveAll(wd)
-	base := filepath.Join(wd, "b")
+	defer cleanup(wd)
+	base := wd // does not exist yet: Write creates it
 	target := filepath.Join(base, "svid")
 	k, point := hit.Write, hit.Point
 	seq := hist{writes: c.p.Writes}
@@ -994,7 +1210,7 @@ func (c *caseRun) crashPoint(n int, hit hitRec) {
 
 	// ---- recovery by a fresh Dir in a fresh process, watched at every hook hit
 	rh := hist{prior: c.p.Writes[:k+1], completed: k >= 1, writes: append([]writeSpec{c.p.Rec1}, c.p.More...)}
-	rrep, code, stderr, err := runChild(wd, childSpec{Target: target, Writes: rh.writes, Observe: true})
+	rrep, code, stderr, err := runChild(wd, childSpec{Target: target, Writes: rh.writes, Observe: true, PriorDone: rh.completed})
 	if err != nil || code != 0 || !rrep.Done {
 		rec.Inconclusive(c.idx, "recovery child did not finish", map[string]any{"n": n, "exit": code, "err": fmt.Sprint(err), "stderr": stderr})
 		return
@@ -1003,6 +1219,7 @@ func (c *caseRun) crashPoint(n int, hit hitRec) {
 		rec.Count("observe-recovery.hits", 1)
 		c.judgeHit(rh, "observe-recovery", h.Write, h.Point, *h.Obs, map[string]any{"crash_at_hit": n, "crashed_write": k, "crash_point": point, "recovery_writes": rh.writes, "hit": h.N})
 	}
+	c.judgeReader(rh, "reader-recovery", rrep.Reader, map[string]any{"crash_at_hit": n, "crashed_write": k, "crash_point": point, "recovery_writes": rh.writes})
 	for _, r := range rrep.Returns {
 		what, after := "recovery-write-fails:", "after-recovery/"
 		if r.Write > 0 {
@@ -1032,7 +1249,13 @@ func (c *caseRun) crashPoint(n int, hit hitRec) {
 		return
 	}
 
-	// ---- crash the recovery Write at each of its points, recover again
+	// ---- crash the recovery Write at each of its points, recover again.
+	// Only for crash points in the last Write of the sequence: a crash in an
+	// earlier Write is the same history as a crash in the last Write of the
+	// shorter sequence (all of those are enumerated as cases of their own).
+	if k != len(c.p.Writes)-1 {
+		return
+	}
 	l2 := hist{prior: rh.prior, completed: rh.completed, writes: []writeSpec{c.p.Rec1}}
 	for _, h := range rrep.Hits {
 		if h.Write != 0 {
@@ -1087,8 +1310,8 @@ func TestCheck(t *testing.T) {
 	}
 	rec = mon.Open("C18")
 	defer rec.Close()
-	rec.Note("rule", "A case index is one sequence of 1-4 Writes by one Dir (file sets: empty, single file, three files, three files overlapping the names of the others with different contents, one 1 MiB file; quick: all 5 sequences of length 1, all 25 of length 2, 10 seeded ones of length 3-4; thorough: all 780 kind sequences of length 1-4 plus 1220 seeded sequences of random sets incl. zero-length files). A child process runs the sequence crash-free and looks at the target at every hook hit (H hits); then for EVERY n in 1..H a fresh child runs the sequence and dies (os.Exit in the hook) at hit n = one evaluation; the parent looks at the target, a fresh process with a fresh Dir performs 1-3 further Writes (watched at every hook hit), and the first of those recovery Writes is itself crashed at EVERY one of its hits j (state restored from a snapshot) and recovered by yet another fresh Dir = one evaluation per (n, j). Oracle at every look: target absent (only while no Write of the history has returned nil) or resolving to a directory whose names and contents equal exactly one complete Write argument of the history so far; after every Write that returns nil the target shows exactly its set; every recovery Write returns nil; crash-free: exactly one version directory in the base directory after each Write. distinct key = (names and sizes of the sequence, n[, recovery set, j]); non-trivial = the crash point is not the very first hook of a Write (something of the interrupted Write is already on disk) or it is a second-level crash.")
-	req := []string{"observe.hits", "recovery.ok", "second-recovery.ok", "nocrash.exactly-one-version-dir", "crash.state.absent-before-first-write", "crash.state.earlier-set", "crash.state.new-set"}
+	rec.Note("rule", "A case index is one sequence of 1-4 Writes by one Dir (file sets: empty, single file, three files, three files overlapping the names of the others with different contents, one 1 MiB file; quick: all 5 sequences of length 1, all 25 of length 2, 10 seeded ones of length 3-4; thorough: all 780 kind sequences of length 1-4 plus 1220 seeded sequences of random sets incl. zero-length files). A child process runs the sequence crash-free and looks at the target at every hook hit (H hits), while a goroutine of that child polls the target in a tight loop (a concurrent reader; only views whose link is unchanged across the read are judged); then for EVERY n in 1..H a fresh child runs the sequence and dies (os.Exit in the hook) at hit n = one evaluation; the parent looks at the target, a fresh process with a fresh Dir performs 1-3 further Writes (watched at every hook hit), and for every n that lies in the LAST Write of the sequence (a crash in an earlier Write is the same history as a crash in the last Write of a shorter sequence) the first of those recovery Writes is itself crashed at EVERY one of its hits j (state restored from a snapshot) and recovered by yet another fresh Dir = one evaluation per (n, j). Oracle at every look: target absent (only while no Write of the history has returned nil) or resolving to a directory whose names and contents equal exactly one complete Write argument of the history so far; after every Write that returns nil the target shows exactly its set; every recovery Write returns nil; crash-free: exactly one version directory in the base directory after each Write. distinct key = (names and sizes of the sequence, n[, recovery set, j]); non-trivial = the crash point is not the very first hook of a Write (something of the interrupted Write is already on disk) or it is a second-level crash.")
+	req := []string{"observe.hits", "reader.stable-views-complete", "reader-recovery.stable-views-complete", "recovery.ok", "second-recovery.ok", "nocrash.exactly-one-version-dir", "crash.state.absent-before-first-write", "crash.state.earlier-set", "crash.state.new-set"}
 	for _, p := range allPoints {
 		req = append(req, "crashpoint."+p, "observe.point."+p)
 		if p != "removeprev.before" {
@@ -1098,7 +1321,7 @@ func TestCheck(t *testing.T) {
 	rec.Note("require", req)
 	rec.Note("exhaustive", true)
 	rec.Note("exhaustive_scope", "per sequence: every hook hit of every Write is a crash point, and every hook hit of the recovery Write is a second crash point; the sequences themselves are all kind sequences up to length 2 (quick) / 4 (thorough) plus seeded ones")
-	rec.Observe("crash points and reader observations are at the verif hook points (before each filesystem call, after the rename, before return); states inside a single filesystem call are not observed")
+	rec.Observe("crash points and the per-step reader observations are at the verif hook points (before each filesystem call, after the rename, before return); states between two filesystem calls that have no hook between them are seen only by the polling reader of the crash-free children (a goroutine resolving the target in a tight loop; it judges only views whose link was the same before and after the read)")
 
 	root := os.Getenv("VERIF_SCRATCH")
 	if root == "" {
